@@ -6,7 +6,9 @@ use refmodel::{Bits, Exact, Jet, DD};
 use serde_json::{json, Value};
 use subject::*;
 
+pub mod bfs;
 pub mod grids;
+pub use bfs::*;
 pub use grids::*;
 
 #[derive(Clone, Debug)]
